@@ -648,8 +648,15 @@ func (p *Parser) parseSelectStatement() (ast.Statement, error) {
 				// Consume SELECT token before calling parseSelectStatement
 				p.advance() // Consume SELECT
 
-				// Parse the subquery
+				// Parse the subquery. Derived tables nest SELECT statements without passing
+				// through parseExpression: count every level against the depth limit.
+				p.depth++
+				if p.depth > MaxRecursionDepth {
+					p.depth--
+					return nil, p.recursionDepthError()
+				}
 				subquery, err := p.parseSelectStatement()
+				p.depth--
 				if err != nil {
 					return nil, err
 				}
@@ -1069,8 +1076,15 @@ func (p *Parser) parseFromTableReference() (ast.TableReference, error) {
 		// Consume SELECT token before calling parseSelectStatement
 		p.advance() // Consume SELECT
 
-		// Parse the subquery
+		// Parse the subquery. Derived tables nest SELECT statements without passing
+		// through parseExpression: count every level against the depth limit.
+		p.depth++
+		if p.depth > MaxRecursionDepth {
+			p.depth--
+			return tableRef, p.recursionDepthError()
+		}
 		subquery, err := p.parseSelectStatement()
+		p.depth--
 		if err != nil {
 			return tableRef, err
 		}
